@@ -57,6 +57,12 @@ func propagateMatchers(binOp *parser.BinaryExpr) {
 	if lhSelector.Name == rhSelector.Name {
 		return
 	}
+	// A selector without a fixed metric name can return series that differ in
+	// the name only, which is a duplicate match group and fails the operation.
+	// Narrowing such a selector with the other side's matchers can hide that error.
+	if lhSelector.Name == "" || rhSelector.Name == "" {
+		return
+	}
 
 	// The maps below hold one matcher per label name, so a selector with several
 	// matchers on one label cannot be represented; leave such expressions alone.
